@@ -354,8 +354,15 @@ def r46(db, ctx):
         cs = [g.callee_short(t) or '' for _, t in g.calls()]
         need = ['core::mem::take', 'lightmotif::seq::StripedSequence::into_matrix', 'lightmotif::dense::DenseMatrix::resize', 'lightmotif::seq::StripedSequence::new']
         miss = [x for x in need if x not in cs]
+        # must-pass-through: every path to a return passes the take() that empties the destination buffer
+        takes = [bi for bi, t in g.calls() if (g.callee_short(t) or '') == 'core::mem::take']
+        escapes = [e for e in g.exits() if not any(g.dominates(tb, e) for tb in takes)]
         if miss:
             ctx.fail('R4.6', g, 'reuse protocol', f'missing {miss}')
+        elif escapes:
+            ctx.fail('R4.6', g, 'return without resetting the destination',
+                     'a path returns without passing through std::mem::take(striped): a reused buffer keeps the previous sequence (length, wrap, rows) instead of the new one',
+                     span=g.blocks[escapes[0]]['term'].get('span'))
         else:
             n += 1
             ctx.ok('R4.6', g, 'take -> into_matrix -> resize(R) -> StripedSequence::new', ['wrap reset by construction'])
